@@ -58,6 +58,23 @@ class Deployment:
             from . import redis_stub
 
             self.redis = redis_stub.SimRedis(sim)
+            stalls = [dict(f) for f in self.cfg.get("redis_stalls", [])]
+            if stalls:
+                # a writer is held up between reserving a log number (INCR) and filling it
+                # (SET) - cluster mode - or before its append script is sent
+                nset = [0]
+
+                def stall(task: Any, op: str, key: str, phase: str) -> Any:
+                    if phase != "pre" or op not in ("set", "eval") or (op == "set" and ":log:" not in key):
+                        return None
+                    nset[0] += 1
+                    for f in stalls:
+                        if not f.get("fired") and f["nth"] == nset[0] - 1:
+                            f["fired"] = True
+                            return float(f["dur"])
+                    return None
+
+                self.redis.fault = stall
         if kind.startswith("grpc("):
             from . import net
 
